@@ -15,6 +15,7 @@ import (
 	"github.com/cosi-project/runtime/pkg/keystorage"
 	"verif.local/explore"
 	"verif.local/seqx"
+	"verif.local/vrt"
 )
 
 type pair struct{ pub, priv string }
@@ -457,12 +458,157 @@ func tamperScenario() explore.Scenario {
 	}
 }
 
+// ---------------------------------------------------------------- concurrent callers
+
+// modelApply is the sequential specification of one operation: the expected result tag and the effect.
+func modelApply(m *kmodel, op string) string {
+	var a, b, c, d int
+	switch {
+	case strings.HasPrefix(op, "init "):
+		fmt.Sscanf(op, "init %d %d", &a, &b)
+		if m.init {
+			return "alreadyinit"
+		}
+		m.init = true
+		m.live[a] = b
+		return "ok"
+	case strings.HasPrefix(op, "del "):
+		fmt.Sscanf(op, "del %d %d", &a, &b)
+		switch {
+		case !m.init:
+			return "notinit"
+		case m.nlive() == 1:
+			return "lastkey"
+		case m.live[a] < 0:
+			return "slotnotfound"
+		case m.live[a] != b:
+			return "decrypt"
+		}
+		m.live[a] = -1
+		return "ok"
+	case strings.HasPrefix(op, "add "):
+		fmt.Sscanf(op, "add %d %d %d %d", &a, &b, &c, &d)
+		switch {
+		case m.live[a] >= 0:
+			return "slotexists"
+		case !m.init:
+			return "notinit"
+		case m.live[c] < 0:
+			return "slotnotfound"
+		case m.live[c] != d:
+			return "decrypt"
+		}
+		m.live[a] = b
+		return "ok"
+	case strings.HasPrefix(op, "get "):
+		fmt.Sscanf(op, "get %d %d", &a, &b)
+		return m.expectGet(a, b)
+	}
+	panic("modelApply: " + op)
+}
+
+func realApply(ks *keystorage.KeyStorage, op string) string {
+	var a, b, c, d int
+	switch {
+	case strings.HasPrefix(op, "init "):
+		fmt.Sscanf(op, "init %d %d", &a, &b)
+		return tagOf(ks.Initialize(master, slots[a], keys[b].pub))
+	case strings.HasPrefix(op, "del "):
+		fmt.Sscanf(op, "del %d %d", &a, &b)
+		return tagOf(ks.DeleteKeySlot(slots[a], keys[b].priv))
+	case strings.HasPrefix(op, "add "):
+		fmt.Sscanf(op, "add %d %d %d %d", &a, &b, &c, &d)
+		return tagOf(ks.AddKeySlot(slots[a], keys[b].pub, slots[c], keys[d].priv))
+	case strings.HasPrefix(op, "get "):
+		fmt.Sscanf(op, "get %d %d", &a, &b)
+		got, err := ks.GetMasterKey(slots[a], keys[b].priv)
+		if err == nil && !bytes.Equal(got, master) {
+			return "wrong-master-key"
+		}
+		return tagOf(err)
+	}
+	panic("realApply: " + op)
+}
+
+// concScenario: two callers on one storage; every schedule must be explained by one of the two sequential
+// orders: both result tags and every (slot, key) retrieval afterwards.
+func concScenario(pre []string, a, b string) explore.Scenario {
+	return explore.Scenario{
+		Name:   fmt.Sprintf("conc/%s/%s||%s", strings.Join(pre, ","), a, b),
+		Desc:   fmt.Sprintf("after %v, callers [%s] and [%s] run concurrently on the same KeyStorage; all schedules: results and the final (slot,key) retrieval table equal one of the two sequential orders of the reference model", pre, a, b),
+		Bounds: []int{-1},
+		Body: func(x *explore.X) {
+			genKeys()
+			in := &inst{ks: &keystorage.KeyStorage{}, m: kmodel{live: [3]int{-1, -1, -1}}}
+			vrt.Branching(false)
+			for _, op := range pre {
+				if msg := in.Apply(op); msg != "" {
+					x.Failf("prelude %s: %s", op, msg)
+					return
+				}
+			}
+			vrt.Branching(true)
+			var ra, rb string
+			vrt.GoNamed("A", func() { ra = realApply(in.ks, a) })
+			vrt.GoNamed("B", func() { rb = realApply(in.ks, b) })
+			vrt.WaitQuiescent()
+			vrt.Branching(false)
+			var why []string
+			for _, order := range [][2]string{{a, b}, {b, a}} {
+				m := in.m
+				w0, w1 := modelApply(&m, order[0]), modelApply(&m, order[1])
+				wa, wb := w0, w1
+				if order[0] != a || (a == b && false) {
+					wa, wb = w1, w0
+				}
+				if a == b {
+					// identical calls: either caller may be the first
+					if !((ra == w0 && rb == w1) || (ra == w1 && rb == w0)) {
+						why = append(why, fmt.Sprintf("sequential results %s,%s", w0, w1))
+						continue
+					}
+				} else if ra != wa || rb != wb {
+					why = append(why, fmt.Sprintf("order %v gives %s / %s", order, wa, wb))
+					continue
+				}
+				chk := &inst{ks: in.ks, m: m}
+				if msg := chk.observe(); msg != "" {
+					why = append(why, fmt.Sprintf("order %v matches the results but afterwards %s", order, msg))
+					continue
+				}
+				x.Outcome("%s/%s", ra, rb)
+				return
+			}
+			x.Failf("after %v: [%s] -> %s and [%s] -> %s concurrently: no sequential order explains it (%s)", pre, a, ra, b, rb, strings.Join(why, "; "))
+		},
+	}
+}
+
+func concScenarios() []explore.Scenario {
+	var out []explore.Scenario
+	for _, g := range []struct {
+		pre []string
+		ops []string
+	}{
+		{nil, []string{"init 0 0", "init 1 1", "add 1 1 0 0", "get 0 0"}},
+		{[]string{"init 0 0"}, []string{"add 1 1 0 0", "add 1 2 0 0", "add 2 2 0 0", "del 0 0", "init 1 1", "get 0 0"}},
+		{[]string{"init 0 0", "add 1 1 0 0"}, []string{"del 0 0", "del 1 1", "add 2 2 0 0", "add 2 2 1 1", "get 1 1"}},
+	} {
+		for i, a := range g.ops {
+			for _, b := range g.ops[i:] {
+				out = append(out, concScenario(g.pre, a, b))
+			}
+		}
+	}
+	return out
+}
+
 func build(tier string) []explore.Scenario {
 	depth := 4
 	if tier == "thorough" {
 		depth = 6
 	}
-	return []explore.Scenario{
+	return append([]explore.Scenario{
 		{
 			Name:       fmt.Sprintf("bfs/depth%d", depth),
 			Desc:       "BFS over initialise / add-slot (right and wrong keys, all slot x pair combinations) / delete-slot / marshal->unmarshal from every reachable (slot -> key pair) state; after every step every (slot,key) retrieval is compared with the model",
@@ -484,7 +630,7 @@ func build(tier string) []explore.Scenario {
 			},
 		},
 		tamperScenario(),
-	}
+	}, concScenarios()...)
 }
 
 func main() {
